@@ -9,6 +9,7 @@ import (
 	"io"
 	"net"
 	"net/http"
+	"os"
 	"reflect"
 	"sync/atomic"
 )
@@ -310,6 +311,50 @@ func SetHTTPRoundTrip(f HTTPFunc) {
 func HTTPRoundTrip() HTTPFunc {
 	if p := httpHook.Load(); p != nil {
 		return *p
+	}
+	return nil
+}
+
+// ---- the inside of a simulated process ----
+
+// ProcEnv is what a simulated process sees of its environment: the things a
+// real process gets from the kernel (its pid, standard input, inherited
+// descriptors, signals) and the servers it runs.  The process simulator
+// decides which process the calling goroutine belongs to.
+type ProcEnv interface {
+	Pid() int
+	Stdin() io.Reader
+	// Listener returns the index-th inherited listening socket.
+	Listener(index uint) (net.Listener, error)
+	// Ready / Stopping are the datagrams to the parent's notification socket.
+	Ready() error
+	Stopping() error
+	SignalNotify(c chan<- os.Signal, sigs ...os.Signal)
+	SignalStop(c chan<- os.Signal)
+	// Serve registers handler as the server on l and blocks until Shutdown.
+	Serve(l net.Listener, handler http.Handler) error
+	// Shutdown stops accepting, waits for the requests in flight and lets
+	// Serve return.
+	Shutdown(ctx context.Context) error
+}
+
+var procEnvHook atomic.Pointer[func() ProcEnv]
+
+// SetProcEnv installs (nil: removes) the function that maps the calling
+// goroutine to the simulated process it belongs to (nil: none).
+func SetProcEnv(f func() ProcEnv) {
+	if f == nil {
+		procEnvHook.Store(nil)
+		return
+	}
+	procEnvHook.Store(&f)
+}
+
+// CurProcEnv returns the environment of the simulated process the calling
+// goroutine belongs to, or nil.
+func CurProcEnv() ProcEnv {
+	if p := procEnvHook.Load(); p != nil {
+		return (*p)()
 	}
 	return nil
 }
